@@ -230,4 +230,9 @@ def r6(ctx):
     ctx.check(rets == ["obj"] and len(init) == 1 and norm(init[0].value) == "{}", "C15.R6", tj, "toJson returns a fresh dict keyed by field name")
 
 
-RULES = [("C15.R1", r1), ("C15.R2", r2), ("C15.R3", r3), ("C15.R4", r4), ("C15.R5", r5), ("C15.R6", r6)]
+def r_idioms(ctx):
+    from .common import repo_idioms
+    repo_idioms(ctx, "C15.R7", ('serializable',))
+
+
+RULES = [("C15.R1", r1), ("C15.R2", r2), ("C15.R3", r3), ("C15.R4", r4), ("C15.R5", r5), ("C15.R6", r6), ("C15.R7", r_idioms)]
